@@ -52,12 +52,52 @@ def run(prop, tier):
                             rejected[(entry, tuple(rec["buf"]))] = rec
         rec = read_record(pre, 0, 5)
         chk.sample({"entry": entry, "input": latin(rec["buf"]), "list_nil": rec["listnil"], "pieces": [(p["p"], p["e"], p["empty"], p["nil"]) for p in rec["pieces"]]})
+    # ---- every statement of the reference grammar G in list context -------------------------------------------
+    # (the end of a statement must be recognised the same way before ';' as at the end of the input, and a statement
+    #  must start the same way after ';' as at offset 0)
+    import fam_grammar
+    gl = os.path.join(wd, "glists.ndjson")
+    nst = 0
+    with open(gl, "w") as out:
+        jobs = []
+        for (start, free, bq, bt, bh) in fam_grammar.STARTS:
+            if fam_grammar.has_start(start) and not start.startswith("FE_") and start not in ("E12", "Type"):
+                jobs.append(lambda start=start, free=free, b=(bq if tier == "quick" else bh): fam_grammar.generate(chk, start, b, start, free, wd))
+        for (tapes, n) in common.parallel(jobs, 4):
+            if n == 0:
+                continue
+            corpus = tapes + ".corpus"
+            harness_json(["gram", "-in", tapes, "-out", os.path.join(wd, "dump.findings"), "-dump", corpus])
+            for l in open(corpus):
+                c = json.loads(l)
+                t = c["text"]
+                nst += 1
+                forms = [("ParseStatements", t + ";SELECT 1"), ("ParseStatements", "SELECT 1;" + t + " ;"), ("ParseStatements", t + "\n;\n" + t)]
+                if c["dir"] == "ddl":
+                    forms += [("ParseDDLs", t + ";DROP TABLE t"), ("ParseDDLs", "DROP TABLE t; " + t + ";")]
+                if c["dir"] == "dml":
+                    forms += [("ParseDMLs", t + ";DELETE FROM t WHERE TRUE"), ("ParseDMLs", "DELETE FROM t WHERE TRUE; " + t + ";")]
+                for (e, text) in forms:
+                    out.write(json.dumps({"entry": e, "text": text}) + "\n")
+    pre = os.path.join(wd, "rec-glists")
+    n = harness_json(["compose", "-in", gl, "-out", pre, "-chunks", 8])["records"]
+    cnt, rejects, states, trans = validate_chunks("ComposeTrace", [], pre, 8, os.path.join(wd, "v-glists"))
+    log("grammar statements in list context: %d statements, %d lists, %d rejects" % (nst, cnt, len(rejects)))
+    total += cnt
+    chk.cov["states"] += states
+    chk.cov["transitions"] += trans
+    chk.notes["grammar_statements_in_list_context"] = {"statements": nst, "lists": cnt}
+    for (k, line, tag) in rejects[:3000]:
+        rec = read_record(pre, k, line)
+        rejected[(rec["entry"], tuple(rec["buf"]))] = rec
     chk.cov["traces_validated_against_impl"] = total
     chk.cov["evaluations"] = total
     chk.cov["distinct_nontrivial"] = max(2, total)
     chk.cov["exhaustive"] = True
     chk.cov["rule"] = ("every list of up to MaxLen statements over a 36-statement pool (queries incl. trailing-comma forms, DML, DDL, CALL, 6 broken statements, 4 empty/comment-only ones) "
-                       "x 8 separator-trivia variants per gap, plus every leading/trailing ';' decoration, for the three list entry points; one record per list, validated by TLC")
+                       "x 8 separator-trivia variants per gap, plus every leading/trailing ';' decoration, for the three list entry points; one record per list, validated by TLC"
+                       " || every statement sentence of the reference grammar G (all statement start symbols, the quick budgets of the grammar checks) in list context: "
+                       "before ';' + statement, after statement + ';', and twice with a newline-separated ';' (ParseStatements; ParseDDLs / ParseDMLs for DDL / DML sentences)")
     still = confirm(list(rejected.keys())[:500], wd)
     for key, rec in rejected.items():
         if key in still:
